@@ -1,4 +1,5 @@
 import Emerge.Proofs.GrammarLang
+import Emerge.Proofs.EbnfTable
 /-
   C01 — EBNF-to-grammar translation preserves the language of every rule.
 
@@ -9,10 +10,17 @@ import Emerge.Proofs.GrammarLang
   least fixed point of the final production list a non-terminal with such a shape denotes `⟦s⟧`,
   `⟦s⟧ ∪ ε`, `⟦s⟧*`, `⟦s⟧⁺` (`C01_operator`; `⟦s⟧` read in the same fixed point, so nesting, sharing
   and recursion through the operand are covered; `C01_fixed_point`, `C01_least` say what "the
-  language of a rule" is).  NOT proved: the composition over a whole specification (that the table
-  after all 35 actions contains, for every operator occurrence, exactly its shape and nothing else
-  under that name - this is where findings F14/F2b live); it is decided per specification by the
-  correspondence and the bounded language comparison of the check.
+  language of a rule" is).  Across a whole specification: the invariant `TableOk` (every memoised
+  name has exactly its operator's productions; names are not shared between operator classes) holds
+  for the empty table, is preserved by every operator action, by adding a rule whose name is not a
+  synthesised one and by everything that leaves productions and memo alone (`C01_table_*`), so in
+  the final table every operator occurrence denotes what the documentation says
+  (`C01_table_operator`).  Hypotheses, stated in the theorems: a newly synthesised name is unused
+  (the code tries |NT|+1 numbered candidates; injectivity of decimal printing is not proved), and a
+  rule's name is not a synthesised name - exactly what finding F2b violates in the code as it is.
+  NOT proved: that the value a `rhs` sub-tree evaluates to denotes the EBNF meaning of that
+  sub-tree (the fold over the 35 actions); decided per specification by the correspondence and
+  the bounded language comparison of the check.
 -/
 namespace Emerge.Props.C01
 open Emerge Emerge.Ebnf
@@ -200,6 +208,37 @@ theorem C01_closure (cfg : Cfg) (names : List (String × String)) (t : SymTab) (
     q ∈ (closureAction cfg names t s k).1.prods ↔
       q ∈ t.prods ∨ (q.head = (closureAction cfg names t s k).2 ∧ ShapeMem k (closureAction cfg names t s k).2 s q.body) :=
   closureAction_prods cfg names t s k q
+
+/-! ### across a whole specification: the invariant of the symbol table -/
+
+/-- the empty table is well-formed … -/
+theorem C01_table_empty : TableOk {} := TableOk.empty
+
+/-- … every operator action keeps it so (a newly synthesised name being unused) … -/
+theorem C01_table_closure {t : SymTab} (h : TableOk t) (cfg : Cfg) (names : List (String × String)) (s : Strings) (k : Kind)
+    (hfresh : (mapStringToNonTerminal cfg names t s k.suffix).2 ∉ t.nonTerminals) :
+    TableOk (closureAction cfg names t s k).1 := h.closure cfg names s k hfresh
+
+/-- … adding a production of a rule whose name is registered and is not a synthesised name keeps it so … -/
+theorem C01_table_rule {t : SymTab} (h : TableOk t) (A : String) (α : GString) (hA : A ∈ t.nonTerminals)
+    (hclash : ∀ s e, (s, e) ∈ t.memo → ∀ k, e.get k ≠ A) : TableOk (addProduction t ⟨A, α⟩) := h.addRule A α hA hclash
+
+/-- … and so does every action that leaves productions and memo alone and only registers names. -/
+theorem C01_table_frame {t t' : SymTab} (h : TableOk t) (hp : t'.prods = t.prods) (hm : t'.memo = t.memo)
+    (hn : ∀ x, x ∈ t.nonTerminals → x ∈ t'.nonTerminals) : TableOk t' := h.frame hp hm hn
+
+/-- **In a well-formed table every operator occurrence means what the documentation says**: the name memoised for an
+    operator of kind `k` over the operand `s` denotes `⟦s⟧`, `⟦s⟧ ∪ ε`, `⟦s⟧*`, `⟦s⟧⁺` in the least fixed point of the
+    table's productions - whatever else the specification contains, before or after. -/
+theorem C01_table_operator {t : SymTab} (h : TableOk t) {s : Strings} {e : MemoEntry} (hm : (s, e) ∈ t.memo) (k : Kind)
+    (hne : e.get k ≠ "") (w : List String) :
+    L t.prods (e.get k) w ↔ shapeLang k (langStrings (L t.prods) s) w :=
+  C01_operator t.prods k (e.get k) s (h.shape s e hm k hne).2 w
+
+/-- Non-vacuity: `{ "a" }` followed by `[ x ]` on an empty table - both names are fresh, the invariant holds. -/
+example : TableOk (closureAction Cfg.current terminalNames
+    (closureAction Cfg.current terminalNames {} [[.t "a"]] .star).1 [[.nt "x"]] .opt).1 :=
+  C01_table_closure (C01_table_closure C01_table_empty _ _ _ _ (by decide)) _ _ _ _ (by decide)
 
 /-- Non-vacuity: for `x = { "a" "b" }`-style tables the hypotheses are met and the language is as expected. -/
 example : L [⟨"n", [.nt "n", .t "a"]⟩, ⟨"n", []⟩] "n" ["a", "a"] :=
